@@ -306,13 +306,6 @@ async fn run_case(c: Case) -> Outcome {
                         tie_across_cut = true;
                     }
                 }
-                // a choked interested peer while slots are free
-                if holders.len() < 10 && !fresh.contains(&p.addr) {
-                    o.fail(
-                        "interested-peer-choked-with-free-slots",
-                        format!("after rotation (step {}): {} is interested and choked although only {} regular slots are taken; fresh={:?}; before={}; after={}", k, p.addr, holders.len(), fresh, brief(&_before, c.seeding), brief(&snap.peers, c.seeding)),
-                    );
-                }
             }
             for p in snap.peers.iter().filter(|p| !p.interested && !p.am_choked && !p.optimistic_unchoke) {
                 o.fail("uninterested-peer-unchoked-after-rotation", format!("after rotation (step {}): {} lost interest but stays unchoked", k, p.addr));
